@@ -45,10 +45,10 @@ def plan(tier, seed):
     for i in range(len(SMALL)):
         for variant in ('iso', 'aniso'):
             specs.append({'name': 'perm-%d-%s' % (i, variant), 'mode': 'perm', 'small': i, 'variant': variant})
-    n = 16 if tier == 'quick' else 64
+    n = 16 if tier == 'quick' else 256
     for k in range(n):
         specs.append({'name': 'seq-%d' % k, 'mode': 'seq', 'rseed': seed * 977 + k,
-                      'n_hist': 4 if tier == 'quick' else 12, 'rounds': 12})
+                      'n_hist': 4 if tier == 'quick' else 16, 'rounds': 12})
     return specs
 
 
